@@ -439,6 +439,7 @@ def run(names):
         if src.count(old) != 1:
             print(f"{name}: pattern matches {src.count(old)} times, skipped"); continue
         open(path, "w").write(src.replace(old, new))
+        sh("rm -rf /verif/target/evidence.bak && cp -r /verif/evidence /verif/target/evidence.bak")
         try:
             for p in props:
                 r = sh(f"cd /verif && ./check {p} --tier quick")
@@ -449,6 +450,7 @@ def run(names):
                 sh(f"rm -rf /verif/replay/{p}/found")
         finally:
             sh("git -C /repo checkout -- .")
+            sh("rm -rf /verif/evidence && mv /verif/target/evidence.bak /verif/evidence")
     open("/verif/target/mutants.log", "a").write("\n".join(rows) + "\n")
 
 if __name__ == "__main__":
